@@ -151,7 +151,9 @@ fn wall_cap(tier: Tier) -> f64 {
 fn run_check(prop: &str, tier: Tier) -> i32 {
     let seed = engine::verif_seed();
     println!("pfsim check property={} tier={} VERIF_SEED={} threads={}", prop, tier.name(), seed, engine::n_threads());
-    if prop != "C09" {
+    // C09 supervises child processes itself; C07 re-executes itself under the clock shim first and
+    // starts the watchdog in the process that does the work
+    if prop != "C09" && prop != "C07" {
         engine::start_stall_watchdog();
     }
     match prop {
@@ -336,6 +338,7 @@ fn check_c07(tier: Tier, seed: u64) -> i32 {
     if let Some(code) = clock::reexec_under_shim() {
         return code;
     }
+    engine::start_stall_watchdog();
     let t0 = std::time::Instant::now();
     let wall_start = clock::real_seconds();
     let known = engine::load_known();
@@ -371,12 +374,27 @@ fn check_c07(tier: Tier, seed: u64) -> i32 {
         .collect();
     stats.add("fault.env.children_with_perturbed_environment", (nproc as u64) * 3 / 4);
     let mut outs: Vec<String> = vec![];
-    for c in children {
-        if let Ok(c) = c {
-            if let Ok(o) = c.wait_with_output() {
-                outs.push(String::from_utf8_lossy(&o.stdout).to_string());
+    {
+        // the parent has nothing to do while the children work: keep the stall watchdog quiet for a
+        // bounded time (a child that never finishes is then still reported by the watchdog)
+        let done = std::sync::atomic::AtomicBool::new(false);
+        std::thread::scope(|s| {
+            s.spawn(|| {
+                let t = std::time::Instant::now();
+                while !done.load(std::sync::atomic::Ordering::Relaxed) && t.elapsed().as_secs() < 900 {
+                    engine::tick();
+                    std::thread::sleep(std::time::Duration::from_millis(500));
+                }
+            });
+            for c in children {
+                if let Ok(c) = c {
+                    if let Ok(o) = c.wait_with_output() {
+                        outs.push(String::from_utf8_lossy(&o.stdout).to_string());
+                    }
+                }
             }
-        }
+            done.store(true, std::sync::atomic::Ordering::Relaxed);
+        });
     }
     stats.add("fault.proc.fresh_processes_compared", outs.len() as u64);
     stats.add("c07.proc_batch_scenarios", batch);
